@@ -4,6 +4,6 @@ set -e
 cd "$(dirname "$0")"
 export CARGO_NET_OFFLINE=true PUBLISH_SKIP_BUILD=1
 python3 tools/extract_consts.py
-(cd lean && lake build RioModel Drivers $(grep -o 'name = "drv_[a-z0-9_]*"' lakefile.toml | sed 's/name = "\(.*\)"/\1/'))
+(cd lean && lake build RioModel $(python3 -c "import json,glob; print(\" \".join(sorted({x for f in glob.glob(\"../props/*.json\") for j in [json.load(open(f))] for x in [j[\"lean_module\"], j.get(\"driver\") or \"\"] if x})))"))
 (cd harness && cargo build --bins)
 echo setup done
